@@ -31,6 +31,8 @@ def _patch_first(tree):
     return False
 
 
+PYI = 'beartype/_util/py/utilpyinterpreter.py'
+
 VARIANTS = {
     # ---- R2: marker inputs ------------------------------------------------------------------------
     'transformer-reads-new-option': tseeded(ASG, lambda t: replace_where(
@@ -61,6 +63,13 @@ VARIANTS = {
     'second-foreign-patch': tseeded(LOADER, lambda t: replace_where(
         t, src_is('self._module_name = fullname'), lambda n: [n] + stmts('_bootstrap_external.SOURCE_SUFFIXES = [".py"]'),
         scope='BeartypeSourceFileLoader.get_code'), 'C16.R1'),
+    # ---- R6 / R3 parse flags -----------------------------------------------------------------------------------------------
+    'environment-overrules-the-interpreter': tseeded(PYI, lambda t: replace_where(
+        t, lambda n: isinstance(n, ast.If) and '__debug__' in ast.unparse(n.test), lambda n: (setattr(n, 'test', expr('TYPE_CHECKING')) or n),
+        scope='is_python_optimized'), 'C16.R6', 'seeded C16-22'),
+    'hooked-parse-with-type-comments': tseeded(LOADER, lambda t: replace_where(
+        t, lambda n: isinstance(n, ast.Name) and n.id == 'PyCF_ONLY_AST' and isinstance(n.ctx, ast.Load), lambda n: expr('PyCF_ONLY_AST | 4096'),
+        scope='BeartypeSourceFileLoader.source_to_code'), 'C16.R3', 'seeded C05-21'),
     # ---- neutral ------------------------------------------------------------------------------------
     'n-roundtrip-loader': roundtrip(LOADER),
     'n-roundtrip-cache': roundtrip(CACHE),
